@@ -45,6 +45,15 @@ func tmplBlockStmts() listTemplate {
 		}}
 }
 
+// tmplBlockMixed: a block whose elements are statements of different types (by element number)
+func tmplBlockMixed() listTemplate {
+	t := tmplBlockStmts()
+	t.Name = "BlockStmt.List(mixed)"
+	forms := []string{"\tc <- e%d", "\te%d++", "\tgo e%d()", "\tvar e%d int", "\te%d = 1", "\tdefer e%d()"}
+	t.Elem = func(id int) []string { return []string{fmt.Sprintf(forms[id%len(forms)], id)} }
+	return t
+}
+
 func clauseTemplate(name, open string, head func(id int) string) listTemplate {
 	return listTemplate{Name: name,
 		Open:  func(l string) []string { return []string{"func " + l + "() {", "\t" + open + " {"} },
@@ -115,6 +124,7 @@ func specsOf(d dst.Decl) reflect.Value { return reflect.ValueOf(&d.(*dst.GenDecl
 
 var listTemplates = []listTemplate{
 	tmplBlockStmts(),
+	tmplBlockMixed(),
 	clauseTemplate("SwitchStmt.Cases", "switch x", func(id int) string { return fmt.Sprintf("case %d:", id) }),
 	clauseTemplate("SelectStmt.Comms", "select", func(id int) string { return fmt.Sprintf("case <-c%d:", id) }),
 	clauseTemplate("TypeSwitchStmt.Cases", "switch x.(type)", func(id int) string { return fmt.Sprintf("case t%d:", id) }),
